@@ -30,6 +30,17 @@ def det_cofactor(interp, P, ins):
   return [out.reshape(lead)]
 
 
+def _positive(A, x):
+  from verif.engine.alg import RBool
+  c = A.cmp('gt', x, 0)
+  if isinstance(c, RBool):
+    try:
+      return A.truth(c)
+    except Unsupported:
+      return False
+  return bool(c)
+
+
 def normalize_ring(interp, P, ins):
   """VERIFIED (C09/normalize/contract_*): brax.math.normalize(x) -> (n, norm), last axis.
        (i)   x.x = 1                 =>  n = x, norm = 1
@@ -54,10 +65,36 @@ def normalize_ring(interp, P, ins):
     elif c is not None and c == 0 and all(isc(e) and e == 0 for e in row):
       out[k] = row
       nrm[k] = 0
+    elif all(isc(e) and e == 0 for e in row[1:]) and _positive(A, row[0]):
+      # x = (x0, 0, ..., 0) with x0 > 0 (branch hint from the caller's precondition): norm = x0, n = e_0
+      out[k] = [1] + [0] * (len(row) - 1)
+      nrm[k] = row[0]
+      interp.side_notes.append('normalize: (x0,0,..,0) with x0 > 0 and not tiny (x0 = %s)' % A.show(A.P(row[0]), 3))
     else:
       g = A.sqrt(n2)
       interp.side_notes.append('normalize: input not tiny (some |x_i| > 1e-8), x.x = %s' % (A.show(n2, 4) if not isc(n2) else n2))
       for j, e in enumerate(row):
         out[k, j] = A.div(e, g)
       nrm[k] = g
+  return [out.reshape(x.shape), nrm.reshape(lead)]
+
+
+def normalize_smt(interp, P, ins):
+  """VERIFIED (C09/normalize/contract_*), weak form for SMT callers: x identically 0 => (n, norm) = (0, 0) [clause iii];
+  otherwise n, norm are arbitrary with norm >= 0 (the callers' proofs may not depend on more)."""
+  A = interp.alg
+  x = interp.lift(ins[0])
+  rows, lead = _rows(x, 1)
+  out = np.empty(rows.shape, dtype=object)
+  nrm = np.empty((rows.shape[0],), dtype=object)
+  k0 = len(interp.calls)
+  for k, row in enumerate(rows):
+    if all(isc(e) and e == 0 for e in row):
+      out[k] = [0] * len(row)
+      nrm[k] = 0
+    else:
+      for j in range(len(row)):
+        out[k, j] = A.var('nrmz!%d!%d_%d' % (k0, k, j))
+      nrm[k] = A.var('nrmz!%d!n%d' % (k0, k))
+      A.assume.append(nrm[k] >= 0)
   return [out.reshape(x.shape), nrm.reshape(lead)]
